@@ -15,6 +15,8 @@ CONSTANTS
   FullStropKey = TRUE
   Docs = {0}
   PureFilters = TRUE
+  Confs = {0}
+  PureDerivedNames = TRUE
 VIEW View
 INVARIANT SibDigest
 INVARIANT LimitRespected
